@@ -556,6 +556,108 @@ func TestVerifReplay(t *testing.T) {
 			}
 		}
 	}
+	typedStoreChecks(t)
+}
+
+// TypedStore: every method is the raw operation under the codec - checked against the raw store for all small contents,
+// both iteration directions, an early stop, and a key / value that does not decode
+func typedStoreChecks(t *testing.T) {
+	enc := func(v uint64) ([]byte, error) { b := make([]byte, 8); binary.BigEndian.PutUint64(b, v); return b, nil }
+	dec := func(b []byte) (uint64, int, error) {
+		if len(b) != 8 {
+			return 0, 0, errors.New("not 8 bytes")
+		}
+		return binary.BigEndian.Uint64(b), 8, nil
+	}
+	for mask := 0; mask < 16; mask++ {
+		raw := mapdb.NewMapDB()
+		ts := kvstore.NewTypedStore[uint64, uint64](raw, enc, dec, enc, dec)
+		var want []uint64
+		for k := uint64(0); k < 4; k++ {
+			if mask&(1<<k) != 0 {
+				if err := ts.Set(k, k*10); err != nil {
+					t.Fatalf("REPLAY-VIOLATION TypedStore.Set: %v", err)
+				}
+				want = append(want, k)
+			}
+		}
+		for k := uint64(0); k < 4; k++ {
+			kb, _ := enc(k)
+			rawHas, _ := raw.Has(kb)
+			has, err := ts.Has(k)
+			v, gerr := ts.Get(k)
+			if err != nil || has != rawHas || (rawHas && (gerr != nil || v != k*10)) || (!rawHas && gerr == nil) {
+				t.Fatalf("REPLAY-VIOLATION TypedStore contents %04b: Has(%d) = %v, %v; Get = %d, %v; raw key present %v", mask, k, has, err, v, gerr, rawHas)
+			}
+		}
+		for _, dir := range []kvstore.IterDirection{kvstore.IterDirectionForward, kvstore.IterDirectionBackward} {
+			exp := append([]uint64{}, want...)
+			if dir == kvstore.IterDirectionBackward {
+				for i, j := 0, len(exp)-1; i < j; i, j = i+1, j-1 {
+					exp[i], exp[j] = exp[j], exp[i]
+				}
+			}
+			for stop := 0; stop <= len(exp)+1; stop++ {
+				var pairs, keys []uint64
+				if err := ts.Iterate(kvstore.EmptyPrefix, func(k uint64, v uint64) bool {
+					if v != k*10 {
+						t.Fatalf("REPLAY-VIOLATION TypedStore.Iterate hands out (%d, %d)", k, v)
+					}
+					pairs = append(pairs, k)
+					return len(pairs) < stop
+				}, dir); err != nil {
+					t.Fatalf("REPLAY-VIOLATION TypedStore.Iterate: %v", err)
+				}
+				if err := ts.IterateKeys(kvstore.EmptyPrefix, func(k uint64) bool { keys = append(keys, k); return len(keys) < stop }, dir); err != nil {
+					t.Fatalf("REPLAY-VIOLATION TypedStore.IterateKeys: %v", err)
+				}
+				n := stop
+				if n == 0 && len(exp) > 0 {
+					n = 1
+				}
+				if n > len(exp) {
+					n = len(exp)
+				}
+				for _, got := range [][]uint64{pairs, keys} {
+					if len(got) != n {
+						t.Fatalf("REPLAY-VIOLATION TypedStore contents %v direction %d, consumer stops after %d: iteration handed out %v", want, dir, stop, got)
+					}
+					for i := range got {
+						if got[i] != exp[i] {
+							t.Fatalf("REPLAY-VIOLATION TypedStore contents %v direction %d: iteration order %v, the raw store's order is %v", want, dir, got, exp[:n])
+						}
+					}
+				}
+			}
+		}
+		// an undecodable raw key / value makes the iteration fail instead of being skipped or handed out
+		if mask == 5 {
+			_ = raw.Set([]byte("short"), []byte("x"))
+			if err := ts.Iterate(kvstore.EmptyPrefix, func(uint64, uint64) bool { return true }); err == nil {
+				t.Fatalf("REPLAY-VIOLATION TypedStore.Iterate over a raw key that does not decode returned nil")
+			}
+			if err := ts.IterateKeys(kvstore.EmptyPrefix, func(uint64) bool { return true }); err == nil {
+				t.Fatalf("REPLAY-VIOLATION TypedStore.IterateKeys over a raw key that does not decode returned nil")
+			}
+			_ = raw.Delete([]byte("short"))
+		}
+		if mask == 15 {
+			if err := ts.Delete(2); err != nil {
+				t.Fatalf("REPLAY-VIOLATION TypedStore.Delete: %v", err)
+			}
+			if has, _ := ts.Has(2); has {
+				t.Fatalf("REPLAY-VIOLATION TypedStore.Delete(2) left the key in the store")
+			}
+			if err := ts.Clear(); err != nil {
+				t.Fatalf("REPLAY-VIOLATION TypedStore.Clear: %v", err)
+			}
+			left := 0
+			_ = raw.IterateKeys(kvstore.EmptyPrefix, func(kvstore.Key) bool { left++; return true })
+			if left != 0 {
+				t.Fatalf("REPLAY-VIOLATION TypedStore.Clear left %d raw keys", left)
+			}
+		}
+	}
 }
 `
 	return "kvstore", ".", src, true
